@@ -483,8 +483,8 @@ RetRec(s) ==
        [] f.fn = "start" /\ f.r < 0 /\ ~StrictFailedStart -> [e |-> "ret", t |-> now, mon |-> <<>>, r |-> f.r]
        [] f.fn = "start" /\ f.r = 1 /\ f.x = <<"fork">> ->
             \* in the forked child: start returned 0; pid, wait and another start are rejected there (only destroy is allowed);
-            \* it holds one descriptor above 2 (the exit handle) and blocks no signal
-            base @@ [r |-> 1, fchild |-> <<0, EINVAL, EINVAL, 1, 0, EINVAL>>]
+            \* it holds one descriptor above 2 (the exit handle), blocks no signal, and destroy there closes nothing of the child's own
+            base @@ [r |-> 1, fchild |-> <<0, EINVAL, EINVAL, 1, 0, EINVAL, 0>>]
        [] f.alt # {} -> base @@ [r |-> [any |-> SetToSeq({f.r} \cup f.alt)], ralt |-> 1]
        [] OTHER -> base @@ [r |-> f.r]
 
